@@ -819,18 +819,20 @@ fn scalar(k: Kind) -> BoxedStrategy<Vec<String>> {
         Kind::I32 => one(prop_oneof![any::<i32>(), Just(i32::MIN)]),
         Kind::I64 => one(prop_oneof![any::<i64>(), Just(i64::MIN), Just(i64::MAX)]),
         Kind::I128 => one(prop_oneof![any::<i128>(), Just(i128::MIN), Just(i128::MAX)]),
-        Kind::F32 => one(any::<f32>().prop_filter("finite, json-text safe", |f| {
-            f.is_finite() && serde_json::from_str::<f32>(&f.to_string()).ok() == Some(*f)
+        // (by construction, no rejection: a float that is not finite or does not survive the JSON text round trip is
+        // replaced by one that is derived from its bits and does)
+        Kind::F32 => one(any::<f32>().prop_map(|f| {
+            if f.is_finite() && serde_json::from_str::<f32>(&f.to_string()).ok() == Some(f) { f } else { (f.to_bits() % 100_000) as f32 / 8.0 - 1000.0 }
         })),
-        Kind::F64 => one(any::<f64>().prop_filter("finite, json-text safe", |f| {
-            f.is_finite() && serde_json::from_str::<f64>(&f.to_string()).ok() == Some(*f)
+        Kind::F64 => one(any::<f64>().prop_map(|f| {
+            if f.is_finite() && serde_json::from_str::<f64>(&f.to_string()).ok() == Some(f) { f } else { (f.to_bits() % 10_000_000) as f64 / 16.0 - 100_000.0 }
         })),
         Kind::Bool => one(any::<bool>()),
-        Kind::Char => one(any::<char>().prop_filter("not NUL", |c| *c != '\0')),
+        Kind::Char => one(any::<char>().prop_map(|c| if c == '\0' { '\u{1}' } else { c })),
         Kind::Str => interesting_string().prop_map(|s| vec![s]).boxed(),
         Kind::OptStr => prop_oneof![
             1 => Just(vec![]),
-            3 => interesting_string().prop_filter("non-empty", |s| !s.is_empty()).prop_map(|s| vec![s])
+            3 => interesting_string().prop_map(|s| vec![if s.is_empty() { "x".to_string() } else { s }])
         ]
         .boxed(),
         Kind::OptU32 => prop_oneof![1 => Just(vec![]), 3 => any::<u32>().prop_map(|v| vec![v.to_string()])].boxed(),
